@@ -94,6 +94,94 @@ theorem buildAssignmentMap_get (l : List (String × β)) (k : String) :
       · cases hg : imGet acc k <;> simp [List.find?_cons, hpk]
       · cases hg : imGet acc k <;> simp [List.find?_cons, hpk]
 
+/-- the value of the LAST pair with key `k`. -/
+def lastVal : List (String × β) → String → Option β
+  | [], _ => none
+  | p :: ps, k => (lastVal ps k).or (if p.1 == k then some p.2 else none)
+
+theorem imGet_map_replace (m : List (String × β)) (k' k : String) (v : β) :
+    imGet (m.map fun p => if p.1 == k' then (k', v) else p) k
+      = if k' == k then (if m.any (fun p => p.1 == k') then some v else none) else imGet m k := by
+  unfold imGet
+  induction m with
+  | nil => simp
+  | cons q qs ih =>
+    simp only [List.map_cons, List.find?_cons, List.any_cons]
+    by_cases hq : q.1 == k'
+    · have hq' : q.1 = k' := by simpa using hq
+      by_cases hk : k' == k
+      · simp [hq, hk]
+      · have : ¬ (q.1 == k) = true := by rw [hq']; exact hk
+        simp only [hq, if_true, hk, Bool.false_eq_true, if_false, this]
+        simpa [hk] using ih
+    · by_cases hk : k' == k
+      · have hk' : k' = k := by simpa using hk
+        have : ¬ (q.1 == k) = true := by rw [← hk']; exact hq
+        simp only [hq, Bool.false_eq_true, if_false, this, hk, if_true, Bool.false_or]
+        simpa [hk] using ih
+      · simp only [hq, Bool.false_eq_true, if_false, hk]
+        by_cases hqk : q.1 == k
+        · simp [hqk]
+        · simp only [hqk, Bool.false_eq_true, if_false]
+          simpa [hk] using ih
+
+theorem imGet_imInsert (m : List (String × β)) (k' k : String) (v : β) :
+    imGet (imInsert m k' v) k = if k' == k then some v else imGet m k := by
+  unfold imInsert
+  by_cases hany : m.any (fun p => p.1 == k')
+  · simp only [hany, if_true]
+    rw [imGet_map_replace]
+    by_cases hk : k' == k <;> simp [hk, hany]
+  · simp only [hany, Bool.false_eq_true, if_false]
+    rw [imGet_append]
+    by_cases hk : k' == k
+    · have hk' : k' = k := by simpa using hk
+      have : imGet m k = none := by
+        cases hg : imGet m k with
+        | none => rfl
+        | some w =>
+          have : (imGet m k).isSome := by simp [hg]
+          rw [← any_key_iff, ← hk'] at this
+          exact absurd this hany
+      simp [hk, this]
+    · cases hg : imGet m k <;> simp [hk]
+
+/-- `collect::<IndexMap>()`: the map returns the value of the LAST pair with that key. -/
+theorem imCollect_get (l : List (String × β)) (k : String) : imGet (imCollect l) k = lastVal l k := by
+  unfold imCollect
+  suffices h : ∀ (acc : List (String × β)),
+      imGet (l.foldl (fun m p => imInsert m p.1 p.2) acc) k = (lastVal l k).or (imGet acc k) by
+    have := h []
+    simpa [imGet] using this
+  induction l with
+  | nil => intro acc; simp [lastVal]
+  | cons p ps ih =>
+    intro acc
+    simp only [List.foldl_cons, lastVal]
+    rw [ih, imGet_imInsert]
+    by_cases hp : p.1 == k <;> cases hl : lastVal ps k <;> simp [hp]
+
+/-- every key of the collected map is the key of some input pair. -/
+theorem imCollect_key_mem (l : List (String × β)) (p : String × β) (hp : p ∈ imCollect l) :
+    ∃ q ∈ l, q.1 = p.1 := by
+  have hget : (imGet (imCollect l) p.1).isSome := by
+    rw [← any_key_iff]
+    exact List.any_eq_true.mpr ⟨p, hp, by simp⟩
+  rw [imCollect_get] at hget
+  clear hp
+  induction l with
+  | nil => simp [lastVal] at hget
+  | cons q qs ih =>
+    simp only [lastVal] at hget
+    cases hl : lastVal qs p.1 with
+    | some w =>
+      obtain ⟨q', hq', he⟩ := ih (by simp [hl])
+      exact ⟨q', by simp [hq'], he⟩
+    | none =>
+      by_cases hq : q.1 == p.1
+      · exact ⟨q, by simp, by simpa using hq⟩
+      · simp [hl, hq] at hget
+
 end Maps
 
 end SolverWrap
